@@ -71,5 +71,19 @@ C["C17"]={"jobs":[job("history-k3",".","VH_ClientHistory",["C17/"],{"k":3},QO,bo
    job("history-k4",".","VH_ClientHistory",["C17/"],{"k":4},T,bounds="histories of 4 operations"),job("history-k5",".","VH_ClientHistory",["C17/"],{"k":5},T,bounds="histories of 5 operations")],
    "assumptions":CLIENT_ASSUME+["domain: reply-waiting commands (WaitForReply setters, GetRules) are issued only when no NoWait ACK is outstanding","the simulated kernel reuses one receive buffer"],
    "outside":["concurrent Close (engine threads; see C17 concurrent job when registered)","the live kernel"]}
+
+c18=[]
+for n in (0,1,3,4,5,17):
+    c18.append(job(f"send-len{n}",".","VH_NetlinkSend",["C18/"],{"paylen":n,"sends":1},Q,no_native=True,bounds=f"one Send: symbolic type/flags/pid (0 and non-0)/client pid/counter, payload of {n} symbolic bytes"))
+c18.append(job("send-len8970",".","VH_NetlinkSend",["C18/"],{"paylen":8970,"sends":1},T,no_native=True,bounds="one Send with a payload of 8970 symbolic bytes"))
+c18.append(job("send-x3",".","VH_NetlinkSend",["C18/"],{"paylen":2,"sends":3},Q,no_native=True,bounds="three consecutive Sends: returned sequence numbers increase by one (mod 2^32), symbolic start"))
+c18.append(job("recv-0-24",".","VH_NetlinkReceive",["C18/"],{"maxlen":24,"bufsz":64},Q,no_native=True,bounds="Receive: datagram length 0..24 symbolic bytes x sender in {kernel, netlink pid!=0, unix, nil, recv error} x writer {none, copy, failing} x {raw parser, AuditClient.Receive}"))
+c18.append(job("recv-0-64",".","VH_NetlinkReceive",["C18/"],{"maxlen":64,"bufsz":64},T,no_native=True,bounds="Receive: datagram length 0..64"))
+c18.append(job("recv-large",".","VH_NetlinkReceive",["C18/"],{"maxlen":0,"exact":8986,"bufsz":8986},T,no_native=True,bounds="Receive: datagram of 8986 bytes (full audit buffer)"))
+c18.append(job("parser-0-40",".","VH_ParseAuditMessage",["C18/"],{"maxlen":40},Q,bounds="parseNetlinkAuditMessage on every buffer length 0..40 with symbolic contents"))
+c18.append(job("send-2threads",".","VH_NetlinkSendConcurrent",["C18/"],{"threads":2},Q,no_native=True,bounds="2 goroutines x 2 Sends on one client, every interleaving at synchronisation operations; race detection by vector clocks"))
+c18.append(job("send-3threads",".","VH_NetlinkSendConcurrent",["C18/"],{"threads":3},T,no_native=True,bounds="3 goroutines x 2 Sends"))
+C["C18"]={"jobs":c18,"assumptions":["syscall.Sendto/Recvfrom/Close are harness-side stubs (engine only); NetlinkClient is constructed directly, Socket/Bind are outside","sequence wrap at 2^32 stated as mod-2^32 increase","counterexamples are confirmed in the engine's concrete mode (the native build cannot be given stubbed syscall results)"],
+  "outside":["the real sockets and the kernel's echo behaviour on NETLINK_ROUTE/NETLINK_USERSOCK (I/O)","NewNetlinkClient (Socket/Bind/Getsockname)"]}
 json.dump(C,open('/verif/checks.json','w'),indent=1)
 print({k:len(v["jobs"]) for k,v in C.items()})
